@@ -242,6 +242,37 @@ func (a *bnAn) lenLB(x ssa.Value, b *ssa.BasicBlock, at ssa.Instruction, depth i
 				if n == 1 && st.Block().Dominates(b) {
 					up(a.lenLB(st.Val, st.Block(), st, depth+1))
 				}
+			} else {
+				// a load of a field: the value stored to the same address earlier
+				// in the block, with no call and no store that may alias between
+				blk := v.Block()
+				at := -1
+				for i, in := range blk.Instrs {
+					if in == ssa.Instruction(v) {
+						at = i
+					}
+				}
+			back:
+				for j := at - 1; j >= 0; j-- {
+					switch in := blk.Instrs[j].(type) {
+					case *ssa.Store:
+						if a.sameAddr(in.Addr, v.X) {
+							up(a.lenLB(in.Val, blk, in, depth+1))
+							break back
+						}
+						pa, ok1 := in.Addr.Type().Underlying().(*types.Pointer)
+						pb, ok2 := v.X.Type().Underlying().(*types.Pointer)
+						if !ok1 || !ok2 || types.Identical(pa.Elem(), pb.Elem()) {
+							break back
+						}
+					case *ssa.Call:
+						if _, isB := in.Call.Value.(*ssa.Builtin); !isB {
+							break back
+						}
+					case *ssa.Defer, *ssa.Go, *ssa.Send, *ssa.Select, *ssa.RunDefers:
+						break back
+					}
+				}
 			}
 		}
 	}
